@@ -4,7 +4,7 @@ from ..gen import cells as G
 SPEC = dict(
     manifest=dict(
         category='proof',
-        text='Lean proves for EVERY tree of ordinary cells (all bit lengths, ref counts, shapes; SHA-256 abstract) that the model of Cell.__init__ is constructible iff depth<=1023 and reports the textbook representation hash/depth at every level, that get_representation hashes to the cached hash, and that ==/__hash__ coincide with hash equality. The model is tied to the code by differential correspondence through 12 construction routes.',
+        text='Lean proves for EVERY tree of ordinary cells (all bit lengths, ref counts, shapes; SHA-256 abstract) that the model of Cell.__init__ is constructible iff depth<=1023 and reports the textbook representation hash/depth at every level, that get_representation hashes to the cached hash, that ==/__hash__ coincide with hash equality, and that the standard representation is injective (c01_repr_injective: d1 d2 ++ padded data ++ child depths ++ child hashes determines the BIT STRING -- the completion-tag padding is invertible given d2, Proofs/Pad.lean -- the reference count and every child depth field and hash; c01_hash_binding: equal hashes without a collision on the two representations mean equal bits and child hashes). The model is tied to the code by differential correspondence through 12 construction routes.',
         level_note='Trusted: Lean kernel (propext, Classical.choice, Quot.sound), Model/Cell.lean as a faithful hand transcription of cell.py/exotic.py (checked only by sampled correspondence: ~29k node observations per quick run incl. every bit-length class and depth 1022-1025 chains), bitarray/hashlib semantics, the Python harness.',
         technique='Lean 4 refinement proof (hand model) + differential correspondence with the library',
     ),
